@@ -266,10 +266,11 @@ static std::string doStep(const vj::Val& st) {
     else if (op == "step") {
       /* statement at a time, exactly as apps/cli_parser.cpp and the Context.h recipe do */
       Ctx& c = getCtx(id);
-      if (!c.ireader) { c.ireader = new StringReader(); c.iparser = Parser::createInteractiveParser(*c.ctx, *c.ireader); }
-      c.ireader->reset(st.str("text") + "\n");
-      c.iparser->clear();
-      c.iparser->state(Parser::Begin);
+      /* a fresh interactive parser per input, as bloc -i re-creates its parser after end of input */
+      if (c.iparser) { delete c.iparser; c.iparser = nullptr; }
+      if (c.ireader) { delete c.ireader; c.ireader = nullptr; }
+      c.ireader = new StringReader(st.str("text") + "\n");
+      c.iparser = Parser::createInteractiveParser(*c.ctx, *c.ireader);
       std::string per = "[";
       std::string oc = "ok"; int no = 0; std::string name; int nst = 0;
       bool first = true;
